@@ -15,6 +15,7 @@ import (
 	"strings"
 
 	"github.com/cube2222/octosql/functions"
+	"github.com/cube2222/octosql/octosql"
 )
 
 func init() {
@@ -107,6 +108,50 @@ func genC07(g *Gen, tier string, w *bufio.Writer) {
 				var as []string
 				for a := 0; a < arity; a++ {
 					as = append(as, Pick(g, args))
+				}
+				emit(fmt.Sprintf("SELECT %s(%s) AS r FROM t.csv t", n, strings.Join(as, ", ")))
+			}
+		}
+	}
+	// typed descriptors: the cross product of edge literals over the declared parameter types (capped per descriptor)
+	edgeByType := map[octosql.TypeID][]string{
+		octosql.TypeIDInt:      {"0", "1", "-1", "9223372036854775807", "(0 - 9223372036854775807 - 1)", "i"},
+		octosql.TypeIDString:   {"''", "'abc'", "'żółw'", "s"},
+		octosql.TypeIDFloat:    {"0.0", "-1.5", "f"},
+		octosql.TypeIDBoolean:  {"true", "b"},
+		octosql.TypeIDDuration: {"INTERVAL 0 SECONDS", "INTERVAL 1 HOUR"},
+		octosql.TypeIDTime:     {"time_from_unix(0)", "time_from_unix(i)"},
+	}
+	capPer := 150
+	if tier == "thorough" {
+		capPer = 400
+	}
+	for _, n := range names {
+		for _, d := range fm[n].Descriptors {
+			if d.TypeFn != nil || len(d.ArgumentTypes) == 0 || len(d.ArgumentTypes) > 3 {
+				continue
+			}
+			var pools [][]string
+			for _, at := range d.ArgumentTypes {
+				pool, ok := edgeByType[at.TypeID]
+				if !ok {
+					pool = []string{"s", "i", "NULL"}
+				}
+				pools = append(pools, pool)
+			}
+			total := 1
+			for _, pl := range pools {
+				total *= len(pl)
+			}
+			for c := 0; c < total && c < capPer; c++ {
+				idx := c
+				if total > capPer {
+					idx = g.Intn(total)
+				}
+				var as []string
+				for _, pl := range pools {
+					as = append(as, pl[idx%len(pl)])
+					idx /= len(pl)
 				}
 				emit(fmt.Sprintf("SELECT %s(%s) AS r FROM t.csv t", n, strings.Join(as, ", ")))
 			}
